@@ -67,6 +67,8 @@ impl CodegenGrammar for Grammar {
                     }
                 }
                 Grammar_rules::CharRule(rule) => {
+                    check_ident(&rule.name)
+                        .with_context(|| format!("Error processing @char rule {}", rule.name))?;
                     let rule_ident = safe_ident(&rule.name);
                     all_types.extend(quote!(pub type #rule_ident = char;));
                     all_impls.extend(
